@@ -237,6 +237,7 @@ class Proxy(object):
         annotations = current_context.annotations
         if vargs and isinstance(vargs[0], SerializedBlob):
             # special serialization of a 'blob' that stays serialized
+            annotations = dict(annotations)    # the blob's info annotation is for this call only, don't leave it in the caller's annotations
             data, flags = self.__serializeBlobArgs(vargs, kwargs, annotations, flags, objectId, methodname, serializer)
         else:
             # normal serialization of the remote call
